@@ -10,14 +10,30 @@ pub mod sym;
 pub mod universe;
 pub mod rt;
 pub mod cases;
+pub mod mutants;
+pub mod hashes;
+pub mod corpus;
+pub mod refenc;
+pub mod golden;
+include!("cases_list.rs");
 
 pub mod inst;
 pub mod c01;
+pub mod c04;
+pub mod c05;
+pub mod c06;
 pub mod c07;
+pub mod fsenv;
+pub mod c08;
+pub mod c09;
 pub mod c10;
+pub mod c11;
 pub mod c12;
 pub mod c13;
+pub mod c14;
 pub mod c15;
 pub mod c16;
+pub mod c17;
+pub mod c18;
 pub mod c19;
 pub mod selftest;
